@@ -160,6 +160,23 @@ def run(ctx):
             eq(ctx, "R1", f"{k}: zero weights drop their material [{label}]", g, d, csite,
                nonzero=[rho * I.getattr(tz, "mass")])
         ctx.unit("functions_inlined", len(set(I.calls)))
+    # materials that carry densities of their own: an explicit density - zero included - still decides
+    w, lam, mats = _setup(ctx, False)
+    I = w.I
+    for k_, mi in enumerate(mats):
+        I.setattr(mi, "density", sp.Symbol(f"rho_m{k_ + 1}", positive=True))
+    calc = I.call(I.global_name("nsf", "neutron_composite_sld"), [list(mats)], {"wavelength": lam})
+    zq = I.call(calc, [Vec(ws)], {"density": sp.Integer(0)})
+    ctx.check(tuple(zq) == (0, 0, 0), "R1", "zero density gives zeros also when every material carries a density of its own",
+              f"returned {_s(zq, 120)}", csite)
+    gq2 = I.call(calc, [Vec(ws)], {"density": rho})
+    tot2 = {}
+    for wi, mi in zip(ws, mats):
+        for a, c in I.getattr(mi, "atoms").items():
+            tot2[a] = tot2.get(a, 0) + wi * c
+    tq2 = I.call(I.global_name("formulas", "formula"), [tot2], {})
+    dq2 = I.call(I.global_name("nsf", "neutron_sld"), [tq2], {"density": rho, "wavelength": lam})
+    eq(ctx, "R1", "materials with densities of their own: calculator(w, rho) = direct at rho", gq2[0], dq2[0], csite, nonzero=[rho * I.getattr(tq2, "mass")])
     # a material with an atom that has neutron data but no bulk density of its own (radium): both routes compute it, alike
     w, lam, mats = _setup(ctx, False)
     I = w.I
@@ -184,7 +201,7 @@ def run(ctx):
         for k, g, d_ in zip(names, gq, dq):
             eq(ctx, "R1", f"{k}: an atom with neutron data but no bulk density of its own: calculator = direct", g, d_, csite,
                nonzero=[rho * I.getattr(tq, "mass")])
-    ctx.floor("R1", 52)
+    ctx.floor("R1", 54)
     ctx.floor("R2", 2)
     # _sum_piece is the per-compound loop of neutron_scattering (same four sums)
     w, lam, mats = _setup(ctx, False)
